@@ -106,10 +106,12 @@ class Rig:
                 if client == 'get':
                     c.sendall(GET)
                     return self._read_response(c, timeout)
-                if client == 'split':
-                    c.sendall(GET[:9])
+                if client in ('split', 'split1', 'split2', 'split3', 'splitT'):
+                    cut = {'split': 9, 'split1': 1, 'split2': 2, 'split3': 3, 'splitT': len(GET) - 2}[client]
+                    c.setsockopt(socket.IPPROTO_TCP, socket.TCP_NODELAY, 1)
+                    c.sendall(GET[:cut])
                     time.sleep(0.03)
-                    c.sendall(GET[9:])
+                    c.sendall(GET[cut:])
                     return self._read_response(c, timeout)
                 if client == 'close0':
                     c.close()
